@@ -328,6 +328,70 @@ def autodetect_scenario(ctx, S, w):
             shutil.rmtree(T, ignore_errors=True)
 
 
+def failing_mv_scenario(ctx, S, w):
+    """'a failing command leaves every image structurally consistent' for mv inside one partition whose TARGET cannot be
+    created: an over-long name, a missing directory, a full fixed root, a full volume.  After each failure the partition must
+    pass the complete structural check and hold exactly the tree it held before (the source still there, content intact)."""
+    import tempfile, shutil, fatcheck
+    for ft in ('fat12', 'fat16', 'fat32'):
+        T = tempfile.mkdtemp(prefix='c19m-')
+        try:
+            os.mkdir(os.path.join(T, 'host'))
+            image = os.path.join(T, 'disk.img')
+            layout = S.build_image(image, [[ft, 60, 1]])
+            data = bytes(ctx.rng.getrandbits(8) for _ in range(2900))
+            with open(os.path.join(T, 'host', 'data.bin'), 'wb') as f:
+                f.write(data)
+            H, I = os.path.join(T, 'host'), image + ':1'
+            def sh(*argv):
+                return w.call({'op': 'sh', 'argv': list(argv)})
+            def state():
+                res = w.call({'op': 'walk', 'image': image, 'parts': [1]})['1']
+                with open(image, 'rb') as f:
+                    f.seek(layout[0][0]); vol = f.read(layout[0][1])
+                return res.get('tree'), res.get('error'), fatcheck.fat_consistency(vol, force=True)
+            for argv in (['mkdir', I + '/sub'], ['cp', H + '/data.bin', I + '/sub/data.bin'], ['cp', H + '/data.bin', I + '/top.bin']):
+                if sh(*argv)['rc'] != 0:
+                    ctx.violation('sh/failing-mv/setup', f'{ft}: `{argv[0]} ...` failed while preparing the scenario', dict(fat_type=ft, argv=argv[:1]))
+                    return
+            def attempt(label, src, dst):
+                before = state()
+                r = sh('mv', I + src, I + dst)
+                after = state()
+                ctx.case(('failing-mv', ft, label), True, 'sh-failing-mv')
+                ctx.stat('sh-failing-mv-' + ('failed' if r['rc'] else 'succeeded'))
+                shown = f'mv img:1{src} img:1{dst if len(dst) < 40 else dst[:12] + "...(" + str(len(dst)) + " chars)"}'
+                if after[1] or after[2]:
+                    ctx.violation('sh/failing-mv/inconsistent', f'{ft}, {label}: after `{shown}` (exit {r["rc"]}) the partition is not consistent: '
+                                  f'{after[1] or after[2][:3]}', dict(fat_type=ft, label=label, src=src, dst_len=len(dst)))
+                    return False
+                if r['rc'] != 0 and after[0] != before[0]:
+                    gone = sorted(set(before[0]) - set(after[0]))[:4]
+                    ctx.violation('sh/failing-mv/tree-changed', f'{ft}, {label}: `{shown}` failed ({r["err"].strip()[-80:]!r}) but the tree changed: '
+                                  f'no longer there {gone}, new {sorted(set(after[0]) - set(before[0]))[:4]}',
+                                  dict(fat_type=ft, label=label, src=src, dst_len=len(dst)))
+                    return False
+                return True
+            if not attempt('over-long target name', '/sub/data.bin', '/' + 'n' * 300):
+                return
+            if not attempt('over-long target name in the same directory', '/sub/data.bin', '/sub/' + 'm' * 256):
+                return
+            if not attempt('missing target directory', '/sub/data.bin', '/nodir/x.bin'):
+                return
+            if not attempt('directory to an over-long name', '/sub', '/' + 'd' * 260):
+                return
+            # fill the root directory (fixed size on FAT12/16) or the volume (FAT32) with entries, then move into it
+            for k in range(700):
+                if sh('touch', I + f'/filler with a long name to use slots {k:03d}.x')['rc'] != 0:
+                    break
+            if not attempt('target directory has no room', '/sub/data.bin', '/moved in with a long name as well.bin'):
+                return
+            if not attempt('directory into a directory that has no room', '/sub', '/sub moved with a long name too'):
+                return
+        finally:
+            shutil.rmtree(T, ignore_errors=True)
+
+
 def check_shell(ctx):
     from props import c19_shell as S
     rng = ctx.rng
@@ -336,6 +400,9 @@ def check_shell(ctx):
     S.STATS.clear()
     try:
         autodetect_scenario(ctx, S, w)
+        if ctx.violations:
+            return
+        failing_mv_scenario(ctx, S, w)
         if ctx.violations:
             return
         seqs = []
